@@ -21,11 +21,10 @@ func (c Config) view(s *ss.State) *view {
 		v.state = append(v.state, s.Globals["state"].ApplyFunction(num(i)).AsString())
 		v.term = append(v.term, int(s.Globals["currentTerm"].ApplyFunction(num(i)).AsNumber()))
 		v.ci = append(v.ci, int(s.Globals["commitIndex"].ApplyFunction(num(i)).AsNumber()))
-		var l []tla.Value
-		it := s.Globals["log"].ApplyFunction(num(i)).AsTuple().Iterator()
-		for !it.Done() {
-			_, e := it.Next()
-			l = append(l, e)
+		lg := s.Globals["log"].ApplyFunction(num(i)).AsTuple()
+		l := make([]tla.Value, lg.Len())
+		for j := range l {
+			l[j] = lg.Get(j)
 		}
 		v.log = append(v.log, l)
 		v.sm = append(v.sm, s.Globals["sm"].ApplyFunction(num(i)))
